@@ -50,6 +50,9 @@ inductive Ax where
   | min
   | max
   | not
+  /-- a USER-DEFINED aggregator with two bound arguments (harness `common.rs`): `argmin(cost, item)` returns the `item` of the
+  lexicographically least `(cost, item)` pair; nothing on an empty input -/
+  | argmin
 deriving Repr, DecidableEq
 
 /-- lattice column types of generated programs -/
@@ -103,6 +106,11 @@ def evalAx : Ax → List Tuple → List Tuple
   | .min, bag => (Agg.aggMin (bag.map fun t => intOf (t.headD .unit))).toList.map fun m => [.int m]
   | .max, bag => (Agg.aggMax (bag.map fun t => intOf (t.headD .unit))).toList.map fun m => [.int m]
   | .not, bag => (Agg.aggNot bag.length).map fun _ => []
+  | .argmin, bag =>
+    match Agg.aggMin (bag.map fun t => intOf (t.headD .unit)) with
+    | none => []
+    | some m =>
+      (Agg.aggMin ((bag.filter fun t => intOf (t.headD .unit) == m).map fun t => intOf (t.getD 1 .unit))).toList.map fun b => [.int b]
 
 open Lat in
 /-- `join_mut` of the lattice column, through the C16 model of the column's type -/
